@@ -393,9 +393,11 @@ def parse_kv(line):
     return parts[0], d
 
 
-def compare_corpus(rep, info, opnames, classify=None, nontrivial=None):
+def compare_corpus(rep, info, opnames, classify=None, nontrivial=None, oracle=None, corr_only=()):
     """Diffs impl / model / spec answers for the ops named in opnames.
-    classify(op_line, impl, model, spec) may return the id of a known finding."""
+    classify(op_line, impl, model, spec) may return the id of a known finding.
+    oracle(fields, impl) -> bool decides the property on the implementation's answer when the driver
+    prints no spec= (ops in corr_only are outside the property's precondition: correspondence only)."""
     cdir = info["dir"]
     if info.get("goderive_rc") != 0:
         rep.violation("goderive failed on the supported corpus (exit %s%s): %s" % (
@@ -430,7 +432,12 @@ def compare_corpus(rep, info, opnames, classify=None, nontrivial=None):
                 rep.cov["samples"].append({"op": op.strip()[:400], "impl": impl, "model": model, "spec": spec})
             if impl != model:
                 mism_model.append((op, impl, model, spec))
-            if spec is not None and impl != spec:
+            if f[2] in corr_only:
+                pass
+            elif oracle is not None:
+                if not oracle(f, impl):
+                    mism_spec.append((op, impl, model, spec))
+            elif spec is not None and impl != spec:
                 mism_spec.append((op, impl, model, spec))
     rep.cov["evaluations"] += n
     rep.cov["distinct_nontrivial"] += len(distinct)
